@@ -88,6 +88,36 @@ pub struct UH {
     pub x: u64,
 }
 
+// two types of one TypeScript name in different files, each imported by one of two types that share a file
+pub mod um {
+    use super::*;
+    #[derive(TS, Serialize, Deserialize, Clone, Debug, Samples)]
+    #[ts(export_to = "um/")]
+    pub struct USame {
+        pub m: i32,
+    }
+}
+pub mod un {
+    use super::*;
+    #[derive(TS, Serialize, Deserialize, Clone, Debug, Samples)]
+    #[ts(export_to = "un/")]
+    pub struct USame {
+        pub n: String,
+    }
+}
+
+#[derive(TS, Serialize, Deserialize, Clone, Debug, Samples)]
+#[ts(export_to = "three.ts")]
+pub struct UJ {
+    pub j: um::USame,
+}
+
+#[derive(TS, Serialize, Deserialize, Clone, Debug, Samples)]
+#[ts(export_to = "three.ts")]
+pub struct UK {
+    pub k: un::USame,
+}
+
 // ---- C05: declaration texts that stress the merge (multi-line bodies, docs, prefix names, imports) ----
 
 /// line one
@@ -173,6 +203,10 @@ pub fn registry() -> Vec<TypeEntry> {
         TypeEntry::serde::<UG2>("UG2", "UG2"),
         TypeEntry::serde::<UH>("UH", "UH"),
         TypeEntry::serde::<UI>("UI", "UI"),
+        TypeEntry::serde::<um::USame>("UMSame", "um::USame"),
+        TypeEntry::serde::<un::USame>("UNSame", "un::USame"),
+        TypeEntry::serde::<UJ>("UJ", "UJ"),
+        TypeEntry::serde::<UK>("UK", "UK"),
         TypeEntry::ts::<Foo>("Foo", "Foo"),
         TypeEntry::ts::<FooBar>("FooBar", "FooBar"),
         TypeEntry::ts::<Foo1<u8>>("Foo1", "Foo1<u8>"),
